@@ -177,7 +177,7 @@ func checkRoundTrip(c *ValCase, ctx *Ctx, cfg *configuration.Configuration) erro
 		// a nil result is the zero value of pointer / slice / map / interface types
 		rv = reflect.Zero(want)
 	}
-	if err := gen.Check(rv, c.Type, c.Val, gen.EqMode{}, "$"); err != nil {
+	if err := gen.Check(rv, c.Type, c.Val, gen.EqMode{BigFloatTol: c.Format == "cbe"}, "$"); err != nil {
 		return fmt.Errorf("round trip changed the value: %v\ndoc=%s\ntype=%v", err, docdump(c.Format, doc), c.Type)
 	}
 	return nil
